@@ -12,6 +12,7 @@ RUN=$(cat "$SD/${V}_demo/RUN.txt" | head -1)
 RUN=${RUN//SEED_OUT/$SD}
 echo "== demo WITHOUT change: $RUN"
 ( cd $W && timeout 300 bash -c "$RUN" >/tmp/seed_demo_without.txt 2>&1 ); r0=$?
+grep -qE '^(--- FAIL|FAIL|panic:)' /tmp/seed_demo_without.txt && r0=1
 echo "   exit $r0"
 git checkout -q -- . ; git clean -fdq
 git apply "$SD/$V.patch"
@@ -20,6 +21,7 @@ echo "== baseline tests with change: $*"
 /verif/scripts/baseline_check.sh $W "$@"; rb=$?
 echo "== demo WITH change"
 ( cd $W && timeout 300 bash -c "$RUN" >/tmp/seed_demo_with.txt 2>&1 ); r1=$?
+grep -qE '^(--- FAIL|FAIL|panic:)' /tmp/seed_demo_with.txt && r1=1
 echo "   exit $r1"; tail -5 /tmp/seed_demo_with.txt | cut -c1-200
 git clean -fdq   # remove demo files, keep the change applied for the checker run
 echo "RESULT without=$r0 (want 0) with=$r1 (want !=0) baseline_rc=$rb (want 0)"
